@@ -84,6 +84,30 @@ func init() {
 				cx := ctxs[x.ChooseFree(len(ctxs))]
 				c17Driver(x, []byte(cx.prefix+strings.ReplaceAll(shape, "%s", name)+"\n"))
 			})
+			// Sequences of tags whose names have the same length: whatever the filter
+			// remembers from one tag (a verdict, a lower-cased copy of the name) must
+			// not leak into its decision about the next.
+			seps := []string{"", " ", "x\n"}
+			c.Explore("tag-sequences", fmt.Sprintf("every sequence of <=3 tags from {allowed name in lower / Title / UPPER case, rejected name in lower / Title / UPPER case}, the allowed name a string of q's as long as the rejected one, for each of the %d raw-text element names, x %d separators x 3 contexts", len(rawTextNames), len(seps)), -1, 3, func(x *X) {
+				name := rawTextNames[x.ChooseFree(len(rawTextNames))]
+				allowed := strings.Repeat("q", len(name))
+				title := func(n string) string { return strings.ToUpper(n[:1]) + n[1:] }
+				menu := []string{allowed, title(allowed), strings.ToUpper(allowed), name, title(name), strings.ToUpper(name)}
+				sep := seps[x.ChooseFree(len(seps))]
+				cx := ctxs[x.ChooseFree(len(ctxs))]
+				doc := cx.prefix
+				for i := 0; i < 3; i++ {
+					k := x.ChooseFree(len(menu) + 1)
+					if k == 0 {
+						break
+					}
+					if i > 0 {
+						doc += sep
+					}
+					doc += "<" + menu[k-1] + ">"
+				}
+				c17Driver(x, []byte(doc+"\n"))
+			})
 		},
 	})
 }
